@@ -20,7 +20,7 @@ def levels(tier):
     if tier == "quick":
         return [
             {"name": "typed-n1", "kind": "typed", "n": 1, "alphabet": ["page", "links", "we", "rule", "batch"], "links_batch": 1, "batch_targets": 1,
-             "defaults": ["domain"], "anchored": [None, (1, 3, "path1")], "overwrite": [False, True], "rule_patterns": ["path1"]},
+             "defaults": ["domain"], "anchored": [None, (1, 3, "path1")], "overwrite": [False], "rule_patterns": ["path1"]},
             {"name": "typed-n2", "kind": "typed", "n": 2, "alphabet": ["page", "we"], "defaults": ["domain"], "anchored": [(1, 3, "path1")],
              "overwrite": [False], "tpool": [0, 1]},
             {"name": "clear-n3", "kind": "typed", "n": 3, "alphabet": ["page", "links", "clear"], "links_batch": 1, "defaults": ["domain"],
@@ -32,7 +32,7 @@ def levels(tier):
         {"name": "long-n2", "kind": "plain", "pools": [[[74], [74, 1], [1]], [[73], [147], [1, 148]]], "sparse": True, "n": 2,
          "alphabet": ["page", "links", "we"], "links_batch": 1, "overwrite": [False]},
         {"name": "typed-n2-wide", "kind": "typed", "n": 2, "alphabet": ["page", "links", "we", "rule", "batch"], "links_batch": 1, "batch_targets": 1,
-         "defaults": ["domain"], "anchored": [None, (1, 3, "path1")], "overwrite": [False, True], "rule_patterns": ["path1"]},
+         "defaults": ["domain"], "anchored": [None, (1, 3, "path1")], "overwrite": [False], "rule_patterns": ["path1"]},
         {"name": "clear-n4", "kind": "typed", "n": 4, "alphabet": ["page", "links", "clear"], "links_batch": 1, "defaults": ["domain"],
          "anchored": [None], "overwrite": [False], "tpool": [0, 1]},
         {"name": "typed-n3", "kind": "typed", "n": 3, "alphabet": ["page", "we", "links"], "links_batch": 1, "defaults": ["domain"],
